@@ -1,6 +1,7 @@
 package main
 
 import (
+	"fmt"
 	"time"
 
 	"verif/harness/hx"
@@ -78,6 +79,32 @@ func c14Configs(thorough bool) (cfgs []modelCfg, conc []bool) {
 			}
 		}
 	}
+	// rule sets beyond the size thresholds of library sorts: 13 and 16 rules with saliences tied in
+	// pairs, names given in a scattered order (a sort that is not stable shows as an order
+	// that differs from the tag-free twin / as rules started after the setter)
+	for _, v := range variants {
+		for _, n := range []int{13, 16} {
+			for _, setter := range []int{-1, 0, n / 2} {
+				var rules []ruleCfg
+				var names []string
+				for i := 0; i < n; i++ {
+					rules = append(rules, ruleCfg{Name: fmt.Sprintf("q%02d", i), Sal: int64(20 - i%((n+1)/2)), SetsTag: i == setter})
+				}
+				for i := 0; i < n; i++ {
+					names = append(names, rules[(i*7+3)%n].Name)
+				}
+				cfg := modelCfg{Prop: "C14", Rules: rules, Model: v.name, B: v.policy, Large: true}
+				if v.sel {
+					cfg.Names = names
+				}
+				if setter < 0 {
+					cfg.Diff = v.twin
+				}
+				cfgs = append(cfgs, cfg)
+				conc = append(conc, false)
+			}
+		}
+	}
 	return
 }
 
@@ -88,7 +115,7 @@ func init() {
 		BudgetQuick: 120 * time.Second,
 		BudgetThor:  20 * time.Minute,
 		Kind:        "schedules",
-		Rule: "4 stop-tag variants (engine level, and through the pool's wrappers with two requests on one pool) x 1..4 rules x 3 salience patterns x every position of the tag-setting rule (or none) x every failing subset of size <=2 (incl. the setter itself) x policy; sorted variants: one deterministic execution; mix variant: every schedule with <=2 (thorough 3) preemptions; " +
+		Rule: "4 stop-tag variants (engine level, and through the pool's wrappers with two requests on one pool) x 1..4 rules x 3 salience patterns x every position of the tag-setting rule (or none) x every failing subset of size <=2 (incl. the setter itself) x policy; plus rule sets of 13 and 16 rules with saliences tied in pairs and names given in scattered order (beyond the size up to which library sorts are stable by accident), default schedule; sorted variants: one deterministic execution; mix variant: every schedule with <=2 (thorough 3) preemptions; " +
 			"oracle = staged reference plan with tag semantics; when no rule sets the tag: differential against the tag-free twin model on the same input (error nil-ness, result keys, event log)",
 		Assume: []string{"injected observer functions terminate"},
 		Run: func(c *hx.Ctx) {
@@ -110,7 +137,7 @@ func init() {
 				if conc[i] {
 					b = bound
 				}
-				hx.Explore("C14", modelScenario(cfg), hx.ExploreCfg{Bound: b, Prune: true, Deadline: c.Deadline}, c.Res)
+				hx.Explore("C14", modelScenario(cfg), hx.ExploreCfg{Bound: b, Prune: true, Deadline: c.Deadline, DefaultOnly: cfg.Large}, c.Res)
 			}
 		},
 		Rebuild: rebuildModel,
